@@ -20,11 +20,11 @@ NT_RULE = ('history = initial (breakpoints, slopes) + <=6 insert/pop/reload oper
            'canonical JSON of the history')
 REQUIRED_ORACLES = ['P1', 'P2', 'P3', 'P0', 'INV']
 REQUIRED_CLASSES = ['insert:below_second', 'insert:between', 'insert:equal', 'insert:above_last',
-                    'pop:0', 'pop:inner', 'pop:last', 'reload', 'reload_dict', 'eval:on_break', 'eval:beyond_last']
+                    'pop:0', 'pop:inner', 'pop:last', 'pop:negative_index', 'bps:int_typed', 'slope:zero', 'reload', 'reload_dict', 'eval:on_break', 'eval:beyond_last']
 REQUIRED_PROBES = ['PiecewiseCovEffect.insert', 'PiecewiseCovEffect.pop',
                    'PiecewiseCovEffect._set_intercepts', 'PiecewiseCovEffect.get_UoRT']
 ASSUMPTIONS = ['breakpoints in [0,1], first one 0, initial list strictly ascending; pop index in '
-               '0..len-1; coverages evaluated in [0,1.3]',
+               '-(len-1)..len-1 (Python semantics; -len is not generated); coverages evaluated in [0,1.3]',
                'for an insertion equal to an existing breakpoint either order of the two equal '
                'breakpoints is accepted (the function is the same except for which slope follows)']
 
@@ -73,6 +73,9 @@ def directed(tier):
     D.append({'intervals': [0.0, 1.0], 'slopes': [1.0, 2.0], 'ops': [['insert', 1.0, 3.0], ['reload']],
               'xs': ev, 'Ts': [298.15]})
     D.append(dict(base, ops=[['reload_dict'], ['insert', 0.45, 5.0], ['pop', 1]], xs=ev, Ts=[300.0]))
+    D.append({'intervals': [0, 1], 'slopes': [2.5, -7.25], 'ops': [], 'xs': ev, 'Ts': [300.0]})
+    D.append({'intervals': [0], 'slopes': [3.3], 'ops': [['insert', 1, 4.7], ['insert', 0.5, 1.1], ['pop', 1]], 'xs': ev, 'Ts': [300.0]})
+    D.append(dict(base, ops=[['insert', 0.8, 0.0], ['insert', 0.45, 0], ['pop', -1], ['pop', -2]], xs=ev, Ts=[300.0]))
     D.append(dict(base, ops=[['insert', 0.2, 1.0], ['reload_dict'], ['pop', 2], ['insert', 0.9, 4.0]], xs=ev, Ts=[300.0]))
     return D
 
@@ -81,6 +84,12 @@ def generate(rng, tier):
     n = rng.randint(1, 6)
     bps = sorted(set([0.0] + [_r(rng, 0.01, 1.0) for _ in range(n - 1)]))
     slopes = [_r(rng, -100, 100, 2) for _ in bps]
+    if rng.random() < 0.1:
+        # breakpoints typed as Python ints ([0] or [0, 1]); slopes of exactly zero
+        bps = [0] if rng.random() < 0.5 else [0, 1]
+        slopes = [_r(rng, -100, 100, 2) for _ in bps]
+    if rng.random() < 0.15:
+        slopes[rng.randrange(len(slopes))] = 0.0
     cur = list(bps)
     ops = []
     for _ in range(rng.randint(0, 6)):
@@ -101,10 +110,14 @@ def generate(rng, tier):
                     x = cur[-1]
             else:
                 x = _r(rng, 0.0, 1.0)
-            ops.append(['insert', x, _r(rng, -100, 100, 2)])
+            if isinstance(bps[0], int) and rng.random() < 0.6:
+                x = 1                      # int-typed insertion at full coverage
+            ops.append(['insert', x, rng.choice([_r(rng, -100, 100, 2)] * 5 + [0.0, 0])])
             cur = sorted(cur + [x])
         elif kind == 'pop':
             i = rng.randint(0, len(cur) - 1)
+            if i != 0 and rng.random() < 0.3:
+                i = i - len(cur)               # the same breakpoint addressed from the end (pop(-1) = last)
             ops.append(['pop', i])
             if i != 0:
                 cur.pop(i)
@@ -208,6 +221,10 @@ def run_case(spec, ctx):
     from pmutt.mixture.cov import PiecewiseCovEffect
     from pmutt.io.json import pmuttEncoder, json_to_pmutt
     pairs = list(zip(spec['intervals'], spec['slopes']))
+    if all(isinstance(b, int) for b in spec['intervals']):
+        ctx.cls('bps:int_typed')
+    if any(sl == 0 for sl in spec['slopes']) or any(o[0] == 'insert' and o[2] == 0 for o in spec['ops']):
+        ctx.cls('slope:zero')
     obj = ctx.call('P1', {'after': 'init'}, PiecewiseCovEffect, name_i='A(S)', name_j='B(S)',
                    intervals=list(spec['intervals']), slopes=list(spec['slopes']), name='cov1')
     if obj is core.NOVALUE:
@@ -246,9 +263,11 @@ def run_case(spec, ctx):
                 if not _observe(ctx, obj, pairs, spec, 'pop:0'):
                     return
                 continue
-            if i >= len(pairs):
+            if i >= len(pairs) or i <= -len(pairs):
                 continue
-            kind = 'pop:last' if i == len(pairs) - 1 else 'pop:inner'
+            if i < 0:
+                ctx.cls('pop:negative_index')
+            kind = 'pop:last' if i % len(pairs) == len(pairs) - 1 else 'pop:inner'
             ctx.cls(kind)
             # the model removes the i-th pair of the *object's* current order
             cur = list(zip(obj.intervals, obj.slopes))
